@@ -47,13 +47,14 @@ Section Safety.
   Definition chan_inv (s : sys) (n : N) : Prop :=
     let c := y_ch s n in
     map (answer n) (syncs (yc_issued c)) = yc_results c ++ inflight answer s n /\
-    length (inflight answer s n) = (if yc_wait c then 1 else 0)%nat /\
-    yc_issued c ++ yc_prog c = progs n.
+    (yc_failed c = false -> length (inflight answer s n) = (if yc_wait c then 1 else 0)%nat) /\
+    yc_issued c ++ yc_prog c = progs n /\
+    (yc_failed c = true -> y_dead s = true /\ yc_wait c = false).
 
   Definition YInv (s : sys) : Prop := y_fail s = false /\ forall n, chan_inv s n.
 
   Lemma YInv_init : YInv (init_sys progs).
-  Proof. split; [reflexivity|]. intro n. repeat split. Qed.
+  Proof. split; [reflexivity|]. intro n. repeat split; cbn; intros; discriminate. Qed.
 
   Ltac chan_cases m n :=
     destruct (N.eq_dec m n) as [->|Hmn];
@@ -62,77 +63,96 @@ Section Safety.
   Ltac norm := repeat progress (rewrite ?projc_app, ?syncs_app, ?map_app, ?syncs_one, ?app_nil_r in * );
                rewrite <- ?app_assoc in *.
   Ltac normlen := rewrite ?app_length, ?map_length in *.
+  Ltac fields := cbn [yc_issued yc_results yc_replyq yc_pend yc_mail yc_wait yc_prog yc_failed].
+  Ltac open m H := intro m; specialize (H m); unfold chan_inv, inflight in *;
+                   cbn [with_ch y_ch y_inwire y_outwire y_outbuf y_dead].
 
   Lemma YInv_step s a : YInv s -> YInv (ystep answer bound qcap s a).
   Proof.
     intros [Hf H]. unfold ystep. rewrite Hf.
-    destruct a as [n|n|n k|k| |n| ].
+    destruct a as [n|n|n k|k| |n| | ].
     - (* ASend *)
       destruct (yc_wait (y_ch s n)) eqn:Hw; [split; assumption|].
+      destruct (yc_failed (y_ch s n)) eqn:Hfl; [split; assumption|]. cbn [orb].
       destruct (yc_prog (y_ch s n)) as [|x rest] eqn:Hp; [split; assumption|].
-      destruct (_ <? bound); [|split; assumption].
-      split; [exact Hf|]. intro m. specialize (H m). unfold chan_inv, inflight in *. cbn [with_ch y_ch y_inwire y_outwire y_outbuf].
-      chan_cases m n; [|exact H].
-      cbn [yc_issued yc_results yc_replyq yc_pend yc_mail yc_wait yc_prog].
-      rewrite Hw, Hp in H. destruct H as (H1 & H2 & H3). norm.
-      repeat split.
-      + rewrite H1. rewrite <- ?app_assoc. reflexivity.
-      + normlen. destruct (is_sync x); cbn [length map]; lia.
-      + exact H3.
+      destruct (y_dead s) eqn:Hd.
+      + (* the send fails *)
+        split; [exact Hf|]. open m H. chan_cases m n; [|exact H]. fields.
+        destruct H as (H1 & H2 & H3 & H4). rewrite Hp in H3.
+        split; [exact H1|]. split; [discriminate|]. split; [exact H3|]. intros _. split; [exact Hd|reflexivity].
+      + destruct (_ <? bound); [|split; assumption].
+        split; [exact Hf|]. open m H. chan_cases m n; [|exact H]. fields.
+        rewrite Hw, Hp, Hfl in H. destruct H as (H1 & H2 & H3 & H4). specialize (H2 eq_refl). norm.
+        split; [|split; [|split]].
+        * rewrite H1. rewrite <- ?app_assoc. reflexivity.
+        * intros _. normlen. destruct (is_sync x); cbn [length map]; lia.
+        * exact H3.
+        * discriminate.
     - (* ARecv *)
       destruct (yc_wait (y_ch s n)) eqn:Hw; [|split; assumption].
-      destruct (yc_replyq (y_ch s n)) as [|v rest] eqn:Hr; [split; assumption|].
-      split; [exact Hf|]. intro m. specialize (H m). unfold chan_inv, inflight in *. cbn [with_ch y_ch y_inwire y_outwire y_outbuf].
-      chan_cases m n; [|exact H].
-      cbn [yc_issued yc_results yc_replyq yc_pend yc_mail yc_wait yc_prog].
-      rewrite Hw, Hr in H. destruct H as (H1 & H2 & H3). norm.
-      repeat split.
-      + rewrite H1. rewrite <- ?app_assoc. reflexivity.
-      + cbn [app length] in H2. lia.
-      + exact H3.
+      destruct (yc_replyq (y_ch s n)) as [|v rest] eqn:Hr.
+      + destruct (y_dead s) eqn:Hd; [|split; assumption].
+        split; [exact Hf|]. open m H. chan_cases m n; [|exact H]. fields.
+        rewrite Hr in H. destruct H as (H1 & H2 & H3 & H4).
+        split; [exact H1|]. split; [discriminate|]. split; [exact H3|]. intros _. split; [exact Hd|reflexivity].
+      + split; [exact Hf|]. open m H. chan_cases m n; [|exact H]. fields.
+        rewrite Hw, Hr in H. destruct H as (H1 & H2 & H3 & H4). norm.
+        split; [|split; [|split]].
+        * rewrite H1. rewrite <- ?app_assoc. reflexivity.
+        * intro E. specialize (H2 E). cbn [app length] in H2. lia.
+        * exact H3.
+        * intro E. destruct (H4 E). discriminate.
     - (* ADrain *)
-      split; [reflexivity|]. intro m. specialize (H m). unfold chan_inv, inflight in *. cbn [y_ch y_inwire y_outwire y_outbuf].
+      destruct (y_dead s) eqn:Hd; [split; assumption|].
+      split; [reflexivity|]. open m H. rewrite Hd in *.
       chan_cases m n.
-      + cbn [yc_issued yc_results yc_replyq yc_pend yc_mail yc_wait yc_prog].
+      + fields.
         rewrite <- (firstn_skipn k (yc_mail (y_ch s n))) in H at 1 2. norm.
         rewrite projc_map_same. norm. exact H.
       + rewrite projc_app, (projc_map_other _ Hmn). norm. exact H.
     - (* AWrite *)
-      split; [reflexivity|]. intro m. specialize (H m). unfold chan_inv, inflight in *. cbn [y_ch y_inwire y_outwire y_outbuf].
+      destruct (y_dead s) eqn:Hd; [split; assumption|].
+      split; [reflexivity|]. open m H. rewrite Hd in *.
       rewrite <- (firstn_skipn k (y_outbuf s)) in H at 1 2. norm. exact H.
     - (* ASrvRead *)
       destruct (y_outwire s) as [|[n x] rest] eqn:Ho; [split; assumption|].
-      split; [reflexivity|]. intro m. specialize (H m). unfold chan_inv, inflight in *. cbn [y_ch y_inwire y_outwire y_outbuf].
+      split; [reflexivity|]. open m H.
       rewrite Ho, projc_cons in H.
       destruct (is_sync x) eqn:Hs.
       + chan_cases m n.
-        * cbn [yc_issued yc_results yc_replyq yc_pend yc_mail yc_wait yc_prog].
+        * fields.
           rewrite N.eqb_refl in H. norm. rewrite Hs in H. cbn [map app] in *. exact H.
         * destruct (n =? m) eqn:E; [apply N.eqb_eq in E; congruence|]. exact H.
       + destruct (n =? m) eqn:E; [|exact H].
         norm. rewrite Hs in H. cbn [map app] in H. exact H.
     - (* ASrvAnswer *)
       destruct (yc_pend (y_ch s n)) as [|r rest] eqn:Hp; [split; assumption|].
-      split; [reflexivity|]. intro m. specialize (H m). unfold chan_inv, inflight in *. cbn [y_ch y_inwire y_outwire y_outbuf].
+      split; [reflexivity|]. open m H.
       rewrite projc_app, projc_cons. change (projc m (@nil (N * N))) with (@nil N).
       chan_cases m n.
-      + cbn [yc_issued yc_results yc_replyq yc_pend yc_mail yc_wait yc_prog].
+      + fields.
         rewrite N.eqb_refl. rewrite Hp in H. norm. cbn [map app] in *. exact H.
       + destruct (n =? m) eqn:E; [apply N.eqb_eq in E; congruence|]. norm. exact H.
     - (* ARead *)
+      destruct (y_dead s) eqn:Hd; [split; assumption|].
       destruct (y_inwire s) as [|[n v] rest] eqn:Hi; [split; assumption|].
       assert (Hroom : N.of_nat (length (yc_replyq (y_ch s n))) <? qcap = true).
-      { pose proof (H n) as (_ & H2 & _). unfold inflight in H2. rewrite Hi in H2.
+      { pose proof (H n) as (_ & H2 & _ & H4). unfold inflight in H2. rewrite Hi in H2.
         rewrite projc_cons, N.eqb_refl in H2.
+        destruct (yc_failed (y_ch s n)) eqn:Hfl; [destruct (H4 eq_refl); congruence|].
+        specialize (H2 eq_refl).
         rewrite !app_length in H2. cbn [length app] in H2. apply N.ltb_lt.
         destruct (yc_wait (y_ch s n)); lia. }
       rewrite Hroom.
-      split; [reflexivity|]. intro m. specialize (H m). unfold chan_inv, inflight in *. cbn [y_ch y_inwire y_outwire y_outbuf].
+      split; [reflexivity|]. open m H. rewrite Hd in *.
       rewrite Hi in H. rewrite projc_cons in H.
       chan_cases m n.
-      + cbn [yc_issued yc_results yc_replyq yc_pend yc_mail yc_wait yc_prog].
+      + fields.
         rewrite N.eqb_refl in H. norm. cbn [app] in *. exact H.
       + destruct (n =? m) eqn:E; [apply N.eqb_eq in E; congruence|]. exact H.
+    - (* ADie *)
+      split; [reflexivity|]. open m H. destruct H as (H1 & H2 & H3 & H4).
+      split; [exact H1|]. split; [exact H2|]. split; [exact H3|]. intro E. split; [reflexivity|]. apply H4. exact E.
   Qed.
 
   Lemma YInv_run sched : forall s, YInv s -> YInv (yrun answer bound qcap s sched).
@@ -142,27 +162,33 @@ Section Safety.
   Qed.
 
   (* EVERY schedule: any number of channels, any interleaving of callers, I/O thread and
-     server, any cross-channel order of the server's answers *)
+     server, any cross-channel order of the server's answers, the I/O thread ending at any
+     moment *)
   Theorem sys_own_reply sched :
     let s := yrun answer bound qcap (init_sys progs) sched in
     y_fail s = false /\
     forall n, let c := y_ch s n in
       yc_results c = map (answer n) (firstn (length (yc_results c)) (syncs (yc_issued c))) /\
-      (yc_wait c = false -> yc_results c = map (answer n) (syncs (yc_issued c))) /\
+      (yc_wait c = false -> yc_failed c = false -> yc_results c = map (answer n) (syncs (yc_issued c))) /\
       (yc_wait c = true -> exists r, syncs (yc_issued c) = firstn (length (yc_results c)) (syncs (yc_issued c)) ++ [r] /\
                                     inflight answer s n = [answer n r]) /\
-      (length (yc_replyq c) <= 1)%nat /\
-      yc_issued c ++ yc_prog c = progs n.
+      (yc_failed c = false -> length (yc_replyq c) <= 1)%nat /\
+      yc_issued c ++ yc_prog c = progs n /\
+      (yc_failed c = true -> y_dead s = true).
   Proof.
     cbn zeta. pose proof (YInv_run sched YInv_init) as [Hf H]. split; [exact Hf|].
-    intro n. destruct (H n) as (H1 & H2 & H3).
+    intro n. destruct (H n) as (H1 & H2 & H3 & H4).
     set (s := yrun answer bound qcap (init_sys progs) sched) in *.
     set (c := y_ch s n) in *.
     assert (Hpre : yc_results c = map (answer n) (firstn (length (yc_results c)) (syncs (yc_issued c)))).
     { rewrite <- firstn_map, H1, firstn_app, Nat.sub_diag, firstn_all. cbn [firstn]. rewrite app_nil_r. reflexivity. }
-    split; [exact Hpre|]. split; [|split; [|split]].
-    - intro Hw. rewrite Hw in H2. apply length_zero_iff_nil in H2. rewrite H2, app_nil_r in H1. symmetry. exact H1.
-    - intro Hw. rewrite Hw in H2.
+    split; [exact Hpre|]. split; [|split; [|split; [|split]]].
+    - intros Hw Hfl. specialize (H2 Hfl). rewrite Hw in H2. apply length_zero_iff_nil in H2.
+      rewrite H2, app_nil_r in H1. symmetry. exact H1.
+    - intro Hw.
+      assert (Hfl : yc_failed c = false).
+      { destruct (yc_failed c) eqn:E; [|reflexivity]. destruct (H4 eq_refl). congruence. }
+      specialize (H2 Hfl). rewrite Hw in H2.
       destruct (inflight answer s n) as [|v [|v' t]] eqn:Ei; try discriminate.
       assert (Hlen : length (syncs (yc_issued c)) = S (length (yc_results c))).
       { rewrite <- (map_length (answer n)), H1, app_length. cbn. lia. }
@@ -173,8 +199,9 @@ Section Safety.
         rewrite <- Hsplit in H1. rewrite map_app in H1. rewrite <- Hpre in H1. apply app_inv_head in H1.
         cbn in H1. congruence.
       + exfalso. apply (f_equal (@length N)) in Hsplit. rewrite app_length, firstn_length in Hsplit. cbn in Hsplit. lia.
-    - unfold inflight in H2. fold c in H2. rewrite app_length in H2. destruct (yc_wait c); lia.
+    - intro Hfl. specialize (H2 Hfl). unfold inflight in H2. fold c in H2. rewrite app_length in H2. destruct (yc_wait c); lia.
     - exact H3.
+    - intro E. apply H4. exact E.
   Qed.
 
   (* the reply queue never holds more than one item: the capacity the code gives it (2) is
@@ -183,18 +210,20 @@ Section Safety.
     y_fail (yrun answer bound qcap (init_sys progs) sched) = false.
   Proof. exact (proj1 (sys_own_reply sched)). Qed.
 
-  (* NOBODY WAITS FOR NOTHING: whenever a caller is blocked, its one outstanding item is in one
-     of the six stages, and the action that moves it on is enabled - no reachable state is a
-     deadlock *)
+  (* NOBODY WAITS FOR NOTHING: while the I/O thread lives, whenever a caller is blocked its one
+     outstanding item is in one of the six stages, and the action that moves it on is enabled -
+     no reachable state is a deadlock *)
   Theorem sys_waiting_progress sched n :
     let s := yrun answer bound qcap (init_sys progs) sched in
     yc_wait (y_ch s n) = true ->
     yc_replyq (y_ch s n) <> [] \/ y_inwire s <> [] \/ yc_pend (y_ch s n) <> [] \/
     y_outwire s <> [] \/ y_outbuf s <> [] \/ yc_mail (y_ch s n) <> [].
   Proof.
-    cbn zeta. intro Hw. pose proof (YInv_run sched YInv_init) as [_ H]. destruct (H n) as (_ & H2 & _).
-    rewrite Hw in H2. unfold inflight in H2.
+    cbn zeta. intro Hw. pose proof (YInv_run sched YInv_init) as [_ H]. destruct (H n) as (_ & H2 & _ & H4).
     set (s := yrun answer bound qcap (init_sys progs) sched) in *.
+    assert (Hfl : yc_failed (y_ch s n) = false).
+    { destruct (yc_failed (y_ch s n)) eqn:E; [|reflexivity]. destruct (H4 eq_refl). congruence. }
+    specialize (H2 Hfl). rewrite Hw in H2. unfold inflight in H2.
     destruct (yc_replyq (y_ch s n)); [|left; discriminate].
     destruct (y_inwire s); [|right; left; discriminate].
     destruct (yc_pend (y_ch s n)); [|right; right; left; discriminate].
@@ -202,5 +231,30 @@ Section Safety.
     destruct (y_outbuf s); [|right; right; right; right; left; discriminate].
     destruct (yc_mail (y_ch s n)); [|right; right; right; right; right; discriminate].
     cbn in H2. discriminate.
+  Qed.
+
+  (* WHEN THE CONNECTION DIES NOBODY HANGS (C05), in every reachable state in which the I/O
+     thread has ended - whenever and for whatever reason it ended, whatever was in flight:
+     a blocked caller's recv returns at once (the reply that was already queued, or an error),
+     and a caller's next call returns an error at once without handing anything over *)
+  Theorem sys_dead_releases sched n :
+    let s := yrun answer bound qcap (init_sys progs) sched in
+    y_dead s = true ->
+    yc_wait (y_ch (ystep answer bound qcap s (ARecv n)) n) = false /\
+    yc_wait (y_ch (ystep answer bound qcap s (ASend n)) n) = yc_wait (y_ch s n) /\
+    (yc_wait (y_ch s n) = false -> yc_failed (y_ch s n) = false -> yc_prog (y_ch s n) <> [] ->
+     yc_failed (y_ch (ystep answer bound qcap s (ASend n)) n) = true /\
+     yc_mail (y_ch (ystep answer bound qcap s (ASend n)) n) = yc_mail (y_ch s n)).
+  Proof.
+    cbn zeta. intro Hd. pose proof (YInv_run sched YInv_init) as [Hf _].
+    set (s := yrun answer bound qcap (init_sys progs) sched) in *.
+    unfold ystep. rewrite Hf, Hd. split; [|split].
+    - destruct (yc_wait (y_ch s n)) eqn:Hw; [|exact Hw].
+      destruct (yc_replyq (y_ch s n)); cbn [with_ch y_ch]; rewrite yupd_same; reflexivity.
+    - destruct (yc_wait (y_ch s n)) eqn:Hw; cbn [orb]; [exact Hw|].
+      destruct (yc_failed (y_ch s n)); [exact Hw|].
+      destruct (yc_prog (y_ch s n)); [exact Hw|]. cbn [with_ch y_ch]. rewrite yupd_same. reflexivity.
+    - intros Hw Hfl Hp. rewrite Hw, Hfl. cbn [orb].
+      destruct (yc_prog (y_ch s n)); [contradiction|]. cbn [with_ch y_ch]. rewrite yupd_same. split; reflexivity.
   Qed.
 End Safety.
